@@ -9,7 +9,7 @@ MUST_ENTER = [('a5/core/cell.py', 'cell_to_lonlat'), ('a5/core/cell.py', 'lonlat
               ('a5/core/hilbert.py', 'ij_to_s'), ('a5/core/origin.py', 'segment_to_quintant'), ('a5/core/origin.py', 'quintant_to_segment')]
 RULE = ('cells c: every id of levels 0..5 (quick; 20,472 cells) / 0..7 (thorough; 327,672); structured deep ids for every (face, segment) '
         'with S digit patterns (all-0, all-3, 0333.., 1000.., 1222.., alternating, single deviating digit, runs, random) at r in 6..29 '
-        'built through cell_to_children only; cells found at the poles / frame points / antimeridian at every r. Per cell: cell_to_lonlat '
+        'built through cell_to_children only; cells found at the poles / frame points / antimeridian / dodecahedron edges / seams at every r; runs of index-consecutive deep cells (siblings and cousins) in one process. Per cell: cell_to_lonlat '
         'does not raise, lon in [-180,180], lat in [-90,90], the centre is inside the cell own ring by >= 1e-3 cell widths (independent '
         'point-in-ring oracle), lonlat_to_cell(centre, res) == c. distinct = distinct ids; non-trivial = r>=2')
 ASSUMPTIONS = ['"strictly inside" is operationalised as margin >= 1e-3 widths (observed minimum is reported)']
@@ -21,9 +21,9 @@ def plan(tier, seed):
     for f in range(12):
         specs.append({'part': 'enum', 'face': f, 'top': top})
     for i in range(4 if tier == 'quick' else 16):
-        specs.append({'part': 'deep', 'n': 3500 if tier == 'quick' else 40000})
+        specs.append({'part': 'deep', 'n': 1800 if tier == 'quick' else 25000})
     for i in range(4 if tier == 'quick' else 16):
-        specs.append({'part': 'located', 'n': 1800 if tier == 'quick' else 15000})
+        specs.append({'part': 'located', 'n': 2400 if tier == 'quick' else 20000})
     return specs
 
 
@@ -76,10 +76,18 @@ def run_shard(spec, ctx):
             r = rnd.randint(6, 29)
             c = gen.cell_by_path(a5, n % 12, (n // 12) % 5, gen.digits_pattern(rnd, r - 1))
             eval_cell(a5, geo, c, r, 'pattern', ctx)
+            if n % 6 == 0 and r >= 2:
+                # a run of index-consecutive cells (all siblings, then the cousins) looked up in one process: neighbouring ids are
+                # neighbouring places, which is where a lookup that remembers earlier answers goes wrong
+                par = a5.cell_to_parent(c)
+                run = a5.cell_to_children(a5.cell_to_parent(par)) if r >= 3 and n % 12 == 0 else [par]
+                for pp in run:
+                    for sib in a5.cell_to_children(pp):
+                        eval_cell(a5, geo, sib, r, 'run', ctx)
         ctx.sample({'cell': c, 'r': r, 'centre': a5.cell_to_lonlat(c)})
     else:
         for n in range(spec['n']):
-            kind = ('polar', 'frame', 'antimeridian')[n % 3]
+            kind = ('polar', 'frame', 'antimeridian', 'edge', 'seam')[n % 5]
             p, r = gen.point(rnd, a5, kind)
             try:
                 c = a5.lonlat_to_cell(p, r)
@@ -96,7 +104,7 @@ def run_shard(spec, ctx):
 
 def finalize(m, tier):
     inc = []
-    for k in ('enum_lo', 'pattern_hi', 'polar_hi', 'frame_hi', 'antimeridian_hi'):
+    for k in ('enum_lo', 'pattern_hi', 'polar_hi', 'frame_hi', 'antimeridian_hi', 'edge_hi', 'seam_hi'):
         if m['counters'].get(k, 0) < 200:
             inc.append('class %s below floor' % k)
     return {'inconclusive': inc, 'explanation': 'levels 0..%d enumerated completely' % (5 if tier == 'quick' else 7)}
